@@ -85,8 +85,12 @@ def families(quick):
     ]
     # a table indexed by a position-dependent integer: searchsorted of the coordinate, then take / getitem
     bypos = fam('index-by-position', '{"searchsorted", "take", "getitem_node"}', S('rn3', 'X', 'cf3'), [PRODXY] if quick else B, maxops=2, maxleaves=3, maxunused=2, wide=0)
+    # the insertion position returned by searchsorted ranges over 0..len INCLUSIVE: clamping / wrapping / looking it up, with the
+    # coordinate beyond the last table entry at some points of the sample (integer-range based rewrites must keep the clamp)
+    # (take by the clamped position is not in the vocabulary: a point-dependent index cannot be lowered at all -- known finding)
+    clamp = fam('searchsorted-clamp', '{"searchsorted", "minimum", "maximum", "mod"}', S('rt3', 'X', 'ri', 'ri3'), [LINEU] if quick else [LINEU, PRODXY], maxops=2, maxleaves=3, maxunused=1, wide=0)
     if quick:
-        d2 = [bypos,
+        d2 = [bypos, clamp,
             # ---- depth 2, exhaustive per family, narrow pools
             fam('elem2', '{"add", "true_divide", "power", "greater"}', S('X', 'af2', 'ai2'), [LINEG], maxops=2, maxleaves=2, wide=0),
             fam('index2', '{"getitem"}', S('af223', 'BX'), [PRODYX], maxops=2, maxleaves=1, wide=0),
@@ -99,7 +103,7 @@ def families(quick):
         return d1 + d2
     everything = [LINEB, LINEG, LINEU, RECTB, PRODYX, PRODXY]
     d2 = [
-        bypos,
+        bypos, clamp,
         fam('elem2', '{"add", "multiply", "true_divide", "power", "floor_divide", "greater"}', S('X', 'af2', 'ai2'), A, maxops=2, maxleaves=2, wide=0),
         fam('index2', '{"getitem", "take"}', S('af223', 'BX'), B, maxops=2, maxleaves=1, wide=0),
         fam('shape2', '{"reshape", "transpose", "swapaxes", "ravel", "broadcast_to", "repeat"}', S('af23', 'Y'), B, maxops=2, maxleaves=1, wide=0),
@@ -261,7 +265,7 @@ def run(rep):
         else:
             items.extend(es)
     rng.shuffle(items)
-    cap = 26000 if quick else 240000      # bound on the replay work (nutils compiles every expression it evaluates: ~20 ms CPU each)
+    cap = 29000 if quick else 240000      # bound on the replay work (nutils compiles every expression it evaluates: ~20 ms CPU each)
     if len(items) > cap:
         keep = [e for e in items if e['origin'] == 'bfs']
         sims = [e for e in items if e['origin'] != 'bfs']
